@@ -326,3 +326,65 @@ def seeded(only, tier):
     bad = [r for r in results if r.get("verdict") != "caught"]
     print("selftest-seeded (%s tier): %d caught, %d not" % (tier, len(results) - len(bad), len(bad)))
     return 1 if bad else 0
+
+
+# ---------------------------------------------------------------------------------------------
+# behaviour-preserving patches written by independent sub-agents (/verif/benign/<id>/patch*.diff):
+# negative controls -- every check must stay green on each of them
+# ---------------------------------------------------------------------------------------------
+
+
+def _one_benign(path, props_all):
+    t0 = time.time()
+    name = os.path.basename(os.path.dirname(path)) + "/" + os.path.basename(path)
+    res = {"id": name}
+    tmp = tempfile.mkdtemp(prefix="cvss-benign-")
+    root = os.path.join(tmp, "repo")
+    try:
+        make_copy(root)
+        p = subprocess.run(["git", "apply", "--whitespace=nowarn", path], cwd=root, stdout=subprocess.PIPE, stderr=subprocess.STDOUT)
+        if p.returncode != 0:
+            res["verdict"] = "PATCH-DOES-NOT-APPLY"
+            res["log"] = p.stdout.decode()[-400:]
+            return res
+        passed, failed = run_tests(root)
+        res["tests_passed"], res["tests_failed"] = passed, failed
+        if failed:
+            res["verdict"] = "breaks-existing-tests"
+            return res
+        res["checks"] = {}
+        for prop in props_all:
+            code, out = run_check(prop, root, njobs=int(os.environ.get("SEEDED_JOBS", "8")))
+            sigs = [ln for ln in out.splitlines() if ln.startswith("violation:") or ln.startswith("HARNESS-ERROR")]
+            res["checks"][prop] = {"exit": code, "lines": [x[:400] for x in sigs[:4]]}
+        res["verdict"] = "stays-green" if all(c["exit"] == 0 for c in res["checks"].values()) else "ALARM"
+        return res
+    finally:
+        shutil.rmtree(tmp, ignore_errors=True)
+        res["wall_s"] = round(time.time() - t0, 1)
+
+
+def benign(only):
+    core.attach_repo()
+    from . import checks
+    import glob
+
+    props_all = sorted(checks.CHECKS)
+    paths = sorted(glob.glob(os.path.join(core.VERIF, "benign", "*", "patch*.diff")))
+    if only:
+        paths = [p for p in paths if any(o in p for o in only)]
+    results = []
+    with concurrent.futures.ThreadPoolExecutor(max_workers=2) as ex:
+        for r in ex.map(lambda p: _one_benign(p, props_all), paths):
+            results.append(r)
+            print("%-28s tests=%s/%s -> %-12s %6.1fs %s" % (r["id"], r.get("tests_passed"), len(r.get("tests_failed", [])),
+                                                        r.get("verdict"), r["wall_s"],
+                                                        " ".join("%s=%s" % (k, v["exit"]) for k, v in sorted(r.get("checks", {}).items()))))
+            if r.get("verdict") != "stays-green":
+                print(json.dumps(r, indent=1)[:3000])
+            sys.stdout.flush()
+    with open(os.path.join(core.VERIF, "selftest", "benign_result.json"), "w") as f:
+        json.dump(results, f, indent=1, sort_keys=True)
+    bad = [r for r in results if r.get("verdict") not in ("stays-green", "breaks-existing-tests")]
+    print("selftest-benign: %d stay green, %d alarms/problems" % (sum(r.get("verdict") == "stays-green" for r in results), len(bad)))
+    return 1 if bad else 0
